@@ -576,8 +576,11 @@ def check_period(ix, rep):
             mmap = {n: [r for r in recs if r not in generic] for n, recs in mmap.items()}
             mmap = {n: recs for n, recs in mmap.items() if recs}
         if f in anchors and not any(k is not None for recs in mmap.values() for k, _ in recs):
-            raise AnalysisError(f"{f.module.relpath}:{f.qualname}: no operator name evaluates to a modulus any more "
-                                "(the name -> modulus canonicalisation is no longer recognised)")
+            # the per-gate canonicalisation was written in a form this rule does not evaluate (table in a module constant, modulus
+            # chosen in a helper, …): undecided, neither a pass of the instances confirmed on the pinned tree nor an alarm
+            rep.unknown(rule, f"{f.module.relpath}:{f.qualname}", "no operator name evaluates to a modulus: the name -> modulus canonicalisation "
+                        "is written in a form this rule does not follow; the period obligations of this function are not decided")
+            continue
         if not mmap:
             continue
         n_funcs += 1
